@@ -203,7 +203,8 @@ let layout t =
   (* merge adjacent entries for comparison with the probed field ranges *)
   let rec coalesce = function (a, s) :: (b, s2) :: r when a + s = b -> coalesce ((a, s + s2) :: r) | x :: r -> x :: coalesce r | [] -> [] in
   let sh l = String.concat "," (List.map (fun (a, b) -> Printf.sprintf "%d:%d" a b) (coalesce (List.sort compare l))) in
-  Printf.sprintf "size=%d extent=%d sizeof=%d" (int_of_nat (c07_tm_size tm)) (int_of_nat tm.c07_tm_extent) lay.sz,
+  let tlb = List.fold_left (fun m (a, _) -> min m a) max_int ents and tub = List.fold_left (fun m (a, b) -> max m (a + b)) 0 ents in
+  Printf.sprintf "size=%d extent=%d sizeof=%d lb=0 tlb=%d tub=%d" (int_of_nat (c07_tm_size tm)) (int_of_nat tm.c07_tm_extent) lay.sz tlb tub,
   Printf.sprintf "wf=%b entries=%s comm=%s" (c07_tm_wfb tm (nat_of_int lay.sz)) (sh ents) (sh lay.comm)
 
 (* ---- MPIPack script ---- *)
